@@ -198,24 +198,25 @@ CHECKS = {
         "miri": {"package": "c16_miri", "workloads_quick": 6, "seeds_quick": 64, "workloads_thorough": 48, "seeds_thorough": 256, "preemption_rate": 0.05},
         "rule": "stage 1 (tape-driven, single caller thread): one run = one history of 4-44 ownership operations on a pool of handles (new standard / custom-owner region, clone, word slice, wrap in Int32Array, "
                 "bit view as BooleanBuffer, BooleanArray with a validity mask at its own bit offset, into_mutable -> mutate -> freeze, into_vec, unary_mut / into_builder, &= |= ^=, claim on a shared "
-                "TrackingMemoryPool, export and import over the C Data Interface, drop; final drops in a tape-chosen order) checked after EVERY step against a model of regions (visible bytes, release counter of "
+                "TrackingMemoryPool, export and import over the C Data Interface, a round trip of 1-3 arrays through the C Stream Interface, drop; final drops in a tape-chosen order) checked after EVERY step against a model of regions (visible bytes, release counter of "
                 "custom owners, pool.used()); stage 2 (Miri): per workload seed, 2-3 real threads run seeded operation lists over buffers cloned from shared regions, a shared pool and a ring of channels "
                 "carrying exported arrays, under N interpreter seeds (-Zmiri-many-seeds, preemption rate 0.05), each seed one repeatable instruction-level interleaving; Miri reports data races, use after "
                 "free, double free and leaks, the scenario asserts visible bytes, import equality, release counts and pool.used() == 0 at the final quiescent point; evaluations = stage-1 histories; "
                 "distinct = distinct operation sequences",
         "required_probes": ["probe.own.custom_region", "probe.own.into_mutable_ok", "probe.own.into_mutable_declined", "probe.own.into_vec_ok", "probe.own.unary_mut_ok", "probe.own.unary_mut_declined",
-                            "probe.own.bitop_in_place", "probe.own.bitop_copied", "probe.own.claimed", "probe.own.exported", "probe.own.imported", "probe.own.imported_boolean_array"],
+                            "probe.own.bitop_in_place", "probe.own.bitop_copied", "probe.own.claimed", "probe.own.exported", "probe.own.imported", "probe.own.imported_boolean_array", "probe.own.stream_roundtrip"],
         "components": {
             "real": ["arrow_buffer::{Buffer, MutableBuffer, Bytes, BooleanBuffer, NullBuffer, ScalarBuffer, TrackingMemoryPool} (feature pool)", "arrow_array::{Int32Array, BooleanArray}::{unary_mut, into_builder, to_data}",
-                     "arrow_array::ffi::{to_ffi, from_ffi}, arrow_data::ffi::FFI_ArrowArray, arrow_schema::ffi::FFI_ArrowSchema (release callbacks are Rust, so Miri executes them)"],
+                     "arrow_array::ffi::{to_ffi, from_ffi}, arrow_data::ffi::FFI_ArrowArray, arrow_schema::ffi::FFI_ArrowSchema (release callbacks are Rust, so Miri executes them)",
+                     "arrow_array::ffi_stream::{FFI_ArrowArrayStream, ArrowArrayStreamReader} (stage 1: arrays moved into a stream, exported, imported, drained)"],
             "stub": ["the memory owner (custom Allocation with release counter, 0xDD scribble and quarantine)", "the foreign consumer of exported structs (another handle / another thread)", "stage 2: Miri's interpreter-owned scheduler"],
-            "not_run": ["FFI_ArrowArrayStream / ArrowArrayStreamReader", "binary in-place kernels (arrow_arith::arity::binary_mut)", "GenericByteArray::into_builder", "shuttle (std Arc has no scheduling points: API-granularity interleaving equals the single-threaded histories of stage 1)"],
+            "not_run": ["binary in-place kernels (arrow_arith::arity::binary_mut)", "GenericByteArray::into_builder", "shuttle (std Arc has no scheduling points: API-granularity interleaving equals the single-threaded histories of stage 1)"],
         },
         "level_text": "seeded exploration of ownership histories against an executable region model checked after every step (single caller thread, millions of histories), plus seeded instruction-level "
                       "interleavings of several caller threads under the Miri interpreter with its race / use-after-free / double-free / leak detection; sampling, not proof",
         "design_ref": "DESIGN.md section 4 (C16), section 11",
         "level_note": "in-place success is only accepted when the model says the handle was unique, zero-offset and natively allocated (declining is always accepted); pool accounting of a region that went through an in-place "
-                      "kernel is not predicted (only a lower bound is checked); the C Stream interface and binary in-place kernels are not exercised; Miri runs cover small scenarios (2-3 threads, 8-19 ops each); "
+                      "kernel is not predicted (only a lower bound is checked); binary in-place kernels are not exercised; the C Stream Interface only in stage 1; Miri runs cover small scenarios (2-3 threads, 8-19 ops each); "
                       "trusted: in-tree simulator, the region model, Miri",
         "technique": "deterministic simulation: seeded operation histories over a pool of handles against a reference model (stage 1); seeded thread interleavings owned by the Miri interpreter with replay by (-Zmiri-seed, workload seed) (stage 2)",
         "assumptions": TRUSTED + [
